@@ -633,10 +633,10 @@ func H_C03_whole_file_repeatable() {
 // decode to the text the fonts define, and ToUnicode wins over the base encoding.
 //
 //symgo:harness prop=C07 kernel=K5-whole-file-fonts
-//symgo:desc one-page PDFs from the harness-local writer read through the file content model (natively a real temporary file); the page's font is enumerated: Type1 with WinAnsiEncoding, Type1 with MacRomanEncoding, TrueType with WinAnsiEncoding plus a ToUnicode CMap (bfchar + bfrange, entries on separate lines or on one line) that remaps some codes, or Type0 / Identity-H with a CIDFontType2 descendant and a 2-byte ToUnicode CMap whose targets include a supplementary-plane character; the content shows a string of those codes (literal or hex string, enumerated); cross-reference kind enumerated: Text() contains exactly the text the font defines for the codes, in order
+//symgo:desc one-page PDFs from the harness-local writer read through the file content model (natively a real temporary file); the page's font is enumerated: Type1 with WinAnsiEncoding, Type1 with MacRomanEncoding, TrueType with WinAnsiEncoding plus a ToUnicode CMap (bfchar + bfrange, entries on separate lines or on one line) that remaps some codes, Type0 / Identity-H with a CIDFontType2 descendant and a 2-byte ToUnicode CMap whose targets include a supplementary-plane character, a Type1 font with an encoding dictionary (/BaseEncoding + /Differences by glyph name), a TrueType font whose encoding dictionary and /Differences array are behind references, a 2-byte ToUnicode CMap whose code space bounds stand on separate lines, the standard Symbol font without an /Encoding entry, or text shown before any font is selected (result must still be valid UTF-8); the content shows a string of those codes (literal or hex string, enumerated); cross-reference kind enumerated: Text() contains exactly the text the font defines for the codes, in order
 func H_C07_whole_file_fonts() {
 	xs := vAnyIntIn(0, 1) == 1
-	kind := vAnyIntIn(0, 3)
+	kind := vAnyIntIn(0, 8)
 	hexStr := vAnyIntIn(0, 1) == 1
 	nl := "\n"
 	if vAnyIntIn(0, 1) == 1 {
@@ -667,6 +667,28 @@ func H_C07_whole_file_fonts() {
 		w.stream(6, "/Length "+strconv.Itoa(len(cm)), cm)
 		nums = append(nums, 6)
 		codes, want = []byte{'A', 'a', 'b', 'c'}, "Ωабв"
+	case 4: // Type1 font whose encoding dictionary overrides codes by glyph name
+		w.obj(4, "<< /Type /Font /Subtype /Type1 /BaseFont /ABCDEF+Custom /Encoding << /Type /Encoding /BaseEncoding /WinAnsiEncoding /Differences [65 /Euro /bullet 100 /pi] >> >>")
+		codes, want = []byte{'A', 'B', ' ', 'C', 'd', 0xE9}, "€• Cπé"
+	case 5: // TrueType font, encoding dictionary behind a reference, Differences behind another
+		w.obj(4, "<< /Type /Font /Subtype /TrueType /BaseFont /ABCDEF+Custom /Encoding 6 0 R >>")
+		w.obj(6, "<< /Type /Encoding /BaseEncoding /MacRomanEncoding /Differences 7 0 R >>")
+		w.obj(7, "[ 1 /Omega 66 /quotedblleft /quotedblright ]")
+		nums = append(nums, 6, 7)
+		codes, want = []byte{'A', 1, 'B', 'C', 0x8E}, "AΩ“”é"
+	case 6: // 2-byte ToUnicode CMap whose code space range has its two bounds on separate lines
+		w.obj(4, "<< /Type /Font /Subtype /Type0 /BaseFont /ABCDEF+CJK /Encoding /Identity-H /DescendantFonts [7 0 R] /ToUnicode 6 0 R >>")
+		w.obj(7, "<< /Type /Font /Subtype /CIDFontType2 /BaseFont /ABCDEF+CJK /CIDSystemInfo << /Registry (Adobe) /Ordering (Identity) /Supplement 0 >> /DW 1000 >>")
+		cm := cmapHead + "1 begincodespacerange\n<0000>\n<FFFF>\nendcodespacerange" + nl + "2 beginbfchar" + nl + "<0003> <0061>" + nl + "<0300> <0062>" + nl + "endbfchar" + nl + "endcmap" + nl + "end end"
+		w.stream(6, "/Length "+strconv.Itoa(len(cm)), cm)
+		nums = append(nums, 6, 7)
+		codes, want = []byte{3, 0, 0, 3}, "ba"
+	case 7: // the standard Symbol font with no /Encoding entry: its built-in encoding applies
+		w.obj(4, "<< /Type /Font /Subtype /Type1 /BaseFont /Symbol >>")
+		codes, want = []byte{'a', 'b', 'g', 0xA0}, "αβγ€"
+	case 8: // no font at all is selected before text is shown (no Tf): the text is still valid UTF-8
+		w.obj(4, "<< /Type /Font /Subtype /Type1 /BaseFont /Helvetica >>")
+		codes, want = []byte{'c', 'a', 'f', 0xE9}, "caf"
 	default:
 		w.obj(4, "<< /Type /Font /Subtype /Type0 /BaseFont /ABCDEF+CJK /Encoding /Identity-H /DescendantFonts [7 0 R] /ToUnicode 6 0 R >>")
 		w.obj(7, "<< /Type /Font /Subtype /CIDFontType2 /BaseFont /ABCDEF+CJK /CIDSystemInfo << /Registry (Adobe) /Ordering (Identity) /Supplement 0 >> /DW 1000 >>")
@@ -692,6 +714,9 @@ func H_C07_whole_file_fonts() {
 		str += ")"
 	}
 	data := "BT /F1 12 Tf 72 720 Td " + str + " Tj ET"
+	if kind == 8 {
+		data = "BT 72 720 Td " + str + " Tj ET"
+	}
 	w.stream(5, "/Length "+strconv.Itoa(len(data)), data)
 	w.xref(xs, xs, -1, nums, nil, 8, 9, 10)
 	name := "/tmp/symgo-replay-c07.pdf"
